@@ -261,3 +261,22 @@ _EXTRA8 = {
 }
 for _k, _v in _EXTRA8.items():
     PROPS[_k]['text'] = PROPS[_k]['text'].rstrip() + _v
+
+_EXTRA9 = {
+ 'C01': ' The output cursor and the zero-filled byte counts of routines shared by both pipelines scale by four under the float selector (C01-R14).',
+ 'C02': ' Single-pixel tails of the fast paths are executed like the pixel loops (C02-R10); the scanline readers of alpha-less formats force alpha in every store (C02-R23).',
+ 'C04': ' The setter compares n_params on the path of every filter kind whose fetcher walks the parameter block (C04-R12, defect F30 - fixed).',
+ 'C05': ' A rectangle without points is the empty set of the operator that receives it (C05-R12); differences of box coordinates keep their width (C05-R13, defect F29 - fixed).',
+ 'C06': ' Constructed rectangles are validated (C06-R10); running extents updates are independent (C06-R11).',
+ 'C07': ' Running minima / maxima of the extents are updated independently of each other (C07-R14); range tests are applied before narrowing (C07-R15).',
+ 'C08': ' Cursor steps follow the pipeline width (C08-R16).',
+ 'C09': ' Scanline readers of alpha-less formats force alpha in every store, vector body and scalar tail (C09-R7), and the widening helpers they delegate to are decided by bit provenance (C09-R8).',
+ 'C10': ' Every store of an alpha-less scanline reader has its alpha byte forced (C10-R15).',
+ 'C11': ' 64-bit results are range-tested before they are narrowed (C11-R13, defect F31 - fixed); negations exclude the most negative value (C11-R14, defect F32 - fixed).',
+ 'C12': ' The mask route keeps the 32 bits of the extents (C12-R13, defect F29 - fixed); add_traps and rasterize_trapezoid clamp the bottom at (height << 16) - 1 (C12-R14); the restart value of the pending row count is 0 or 1 (C12-R8).',
+ 'C15': ' A region\'s data pointer is overwritten outside the region module only after the region has been finalised or when it is freshly initialised (C15-R12).',
+ 'C18': ' The setter relates n_params to the header for every filter kind whose fetcher walks the block (C18-R12, defect F30 - fixed).',
+ 'C20': ' A region\'s data pointer is overwritten outside the region module only after the region has been finalised or when it is freshly initialised (C20-R9).',
+}
+for _k, _v in _EXTRA9.items():
+    PROPS[_k]['text'] = PROPS[_k]['text'].rstrip() + _v
